@@ -545,6 +545,13 @@ def B3_assign_pipeline(repo, clause):
         c = dl[0]
         lst = c.args[1] if len(c.args) > 1 else kwarg(c, "obj")
         recorded = bool(apps) or bool(comp) or (lst is not None and not isinstance(lst, ast.Name))
+        if not recorded and isinstance(lst, ast.Name):
+            # the selector is a local computed in one go (a boolean mask, an index array): recorded unless that local is (still) the empty list
+            try:
+                lv = expand(d, lst)
+            except Exception:
+                lv = lst
+            recorded = not (isinstance(lv, ast.Name) or (isinstance(lv, ast.List) and not lv.elts))
         obs.append(Ob("B3", clause, d, c, recorded,
                       "rows that pass the test are %s" % ("recorded for deletion" if recorded else
                                                          "NEVER recorded (no append to `%s`): nothing is excluded" % (ast.unparse(lst) if lst is not None else "?")),
